@@ -64,7 +64,21 @@ def run(ctx):
                     for sfx in (nxt, rng.randbytes(rng.choice((1, 2, 3, 4, 8))), b'\x00' * 6, b'\xff' * 5):
                         base.append(enc.Case('framed_ext/' + op, (op,), buf, [], None))
                         suffixes.append(sfx)
-    lines = [c.line for c in base] + [' '.join(c.op + (core.hexs(c.buf + s),)) for c, s in zip(base, suffixes)]
+    framed1 = len(base)
+    # the coverage-guided corpus of the self-delimiting ops (arbitrary, mostly malformed structure), each with two suffixes
+    for ln in common.cg_lines(ctx, tuple(o + ' ' for o in SD_OPS)):
+        toks = ln.split(' ')
+        if toks[0] == 'content_sig':
+            op, hx = tuple(toks[:3]), toks[3]
+        elif len(toks) == 2:
+            op, hx = (toks[0],), toks[1]
+        else:
+            continue
+        buf = b'' if hx == '-' else bytes.fromhex(hx)
+        for sfx in (rng.randbytes(rng.choice((1, 2, 5, 19))), buf[:max(1, len(buf))] or b'\x00'):
+            base.append(enc.Case('cg/' + op[0], op, buf, [], None))
+            suffixes.append(sfx)
+    lines = [c.line for c in base] + [' '.join(tuple(c.op) + (core.hexs(c.buf + s),)) for c, s in zip(base, suffixes)]
     impl, model = ctx.run_both(lines)
     N = len(base)
     nv = 0
@@ -85,7 +99,7 @@ def run(ctx):
                 bad = 'a slice of the value lies outside the input buffer (copied or static data): %s' % a[:160]
             elif sa.get('remptr') == 'bad' or sb.get('remptr') == 'bad':
                 bad = 'remainder is not the input suffix that follows the consumed bytes'
-        elif k >= framed0 and pa[0] != pb[0]:
+        elif framed0 <= k < framed1 and pa[0] != pb[0]:
             bad = 'the extension holds its declared length, yet appending bytes changed the outcome class: "%s" -> "%s"' % (a, b[:100])
         elif pa[0] in ('error', 'failure'):
             if pb[0] != pa[0]:
